@@ -103,6 +103,7 @@ func c10Records(c *mon.Ctx, r *mon.Rand) {
 	if r.Chance(1, 3) {
 		closeAt, closeWhich = r.Intn(nops), r.Intn(len(scs))
 	}
+	kept := map[string]tally.Timer{}
 	c.Guard("panic-record", desc, func() {
 		for i := 0; i < nops; i++ {
 			if i == closeAt {
@@ -122,12 +123,25 @@ func c10Records(c *mon.Ctx, r *mon.Rand) {
 				c.Event("report-passes-interleaved", 1)
 				continue
 			}
-			s := scs[r.Intn(len(scs))]
+			si := r.Intn(len(scs))
+			s := scs[si]
 			name := names[r.Intn(len(names))]
 			d := r.AnyDuration()
-			ops = append(ops, fmt.Sprintf("Timer(%q).Record(%d) on %q%v", name, d, s.id.Prefix, s.id.Tags))
 			np, nc := prec.LogLen(), crec.LogLen()
-			tm := s.sc.Timer(name)
+			// half of the records go through the handle obtained at the first use of
+			// that timer, kept across closes, passes and the creation of other timers
+			hk := fmt.Sprint(si, "/", name)
+			tm := kept[hk]
+			if tm == nil || r.Bool() {
+				tm = s.sc.Timer(name)
+				if kept[hk] == nil {
+					kept[hk] = tm
+				}
+				ops = append(ops, fmt.Sprintf("Timer(%q).Record(%d) on %q%v", name, d, s.id.Prefix, s.id.Tags))
+			} else {
+				ops = append(ops, fmt.Sprintf("Record(%d) through the handle kept from the first Timer(%q) on %q%v", d, name, s.id.Prefix, s.id.Tags))
+				c.Event("records-through-kept-handles", 1)
+			}
 			tm.Record(d)
 			mark := mon.NextSeq() // "Record returned"
 			pe, ce := timerEvents(logOf(prec)[np:]), timerEvents(logOf(crec)[nc:])
